@@ -5,6 +5,14 @@
 //   c <l> <r> <gap> <eq>              m lines
 //   o S | o F | o A <l> <r> <gap> <eq> | o D <i> <d> | o W <i> <w>      nops lines
 //   (W: the caller assigns the public field Variable::weight, w > 0, between solves - the lock / fixPos idiom)
+//   o R <cnt> <j1> .. <jcnt> | o P <j>      object reuse across successive solvers (IncSolver only):
+//     R: the current IncSolver is DESTROYED and a new IncSolver is constructed over the SAME Variable objects and the
+//        listed Constraint OBJECTS (j = index in creation order: the m initial ones, then one per A op); like the
+//        callers in libcola / libdialect / libtopology that re-use constraint objects, the harness resets the OUTPUT
+//        flag Constraint::unsatisfiable of every object first; it never touches the solver-internal Constraint::active.
+//     P: addConstraint() of an EXISTING constraint object that is not in the current solver (e.g. one that ended up
+//        active in the previous solver).
+//   Result lines list A/U flags in the order of the CURRENT solver's constraint list.
 // Output per instance:  "I <id>"  then per S/F op one line
 //   r <opidx> <status> P <hexfloat>*n B <blocklabel>*n A <01..> U <01..> F <finite> W <act_inv> [T <j>]
 //   T <j> (static Solver, after a throw): index of the constraint the closing scan reported (-1 if unknown)
@@ -48,7 +56,7 @@ static double rat(const char *s)
     return (double) p / (double) q;
 }
 
-struct Op { char kind; int a, b; double g; int eq; };
+struct Op { char kind; int a, b; double g; int eq; std::vector<int> ids; };
 
 static void report(int opidx, const char *status, V::Variables &vs, V::Constraints &cs, int thrown = -2)
 {
@@ -89,15 +97,29 @@ static void report(int opidx, const char *status, V::Variables &vs, V::Constrain
     printf("\n");
 }
 
-static void run_inc(std::vector<Op> &ops, V::Variables &vs, V::Constraints &cs)
+static void run_inc(std::vector<Op> &ops, V::Variables &vs, V::Constraints &objs)
 {
-    V::IncSolver solver(vs, cs);
+    // objs: every Constraint object of this instance in creation order (owned by main); cs: the current solver's list
+    V::Constraints cs(objs);
+    cs.reserve(objs.size() + ops.size() + 4);
+    V::IncSolver *solver = new V::IncSolver(vs, cs);
     for (size_t k = 0; k < ops.size(); ++k) {
         Op &o = ops[k];
         if (o.kind == 'A') {
             V::Constraint *c = new V::Constraint(vs[o.a], vs[o.b], o.g, o.eq != 0);
+            objs.push_back(c);
             cs.push_back(c);          // Solver::cs is a reference to this vector; the final scan reads cs[i], i < m
-            solver.addConstraint(c);
+            solver->addConstraint(c);
+        } else if (o.kind == 'P') {
+            V::Constraint *c = objs[o.a];
+            cs.push_back(c);
+            solver->addConstraint(c);
+        } else if (o.kind == 'R') {
+            delete solver;
+            for (size_t j = 0; j < objs.size(); ++j) objs[j]->unsatisfiable = false;   // the caller's idiom (colafd.cpp:799, aca.cpp:1401)
+            cs.clear();
+            for (size_t j = 0; j < o.ids.size(); ++j) cs.push_back(objs[o.ids[j]]);
+            solver = new V::IncSolver(vs, cs);
         } else if (o.kind == 'D') {
             vs[o.a]->desiredPosition = o.g;
         } else if (o.kind == 'W') {
@@ -105,7 +127,7 @@ static void run_inc(std::vector<Op> &ops, V::Variables &vs, V::Constraints &cs)
         } else {
             const char *status = "ok";
             try {
-                if (o.kind == 'S') solver.solve(); else solver.satisfy();
+                if (o.kind == 'S') solver->solve(); else solver->satisfy();
             } catch (char *) { status = "throw_char";
             } catch (const char *) { status = "throw_char";
             } catch (V::UnsatisfiedConstraint &) { status = "throw_unsatisfied";
@@ -113,9 +135,10 @@ static void run_inc(std::vector<Op> &ops, V::Variables &vs, V::Constraints &cs)
             } catch (vpsc::CriticalFailure &f) { status = "throw_assert"; fprintf(stderr, "%s\n", f.what().c_str());
             } catch (...) { status = "throw_other"; }
             report((int) k, status, vs, cs);
-            if (strcmp(status, "ok") != 0) return;
+            if (strcmp(status, "ok") != 0) break;
         }
     }
+    delete solver;
 }
 
 #ifndef USE_AVOID_NS
@@ -180,6 +203,13 @@ int main(int argc, char **argv)
             else if (line[2] == 'A') { o.kind = 'A'; sscanf(line, "o A %d %d %255s %d", &o.a, &o.b, a, &o.eq); o.g = rat(a); }
             else if (line[2] == 'D') { o.kind = 'D'; sscanf(line, "o D %d %255s", &o.a, a); o.g = rat(a); }
             else if (line[2] == 'W') { o.kind = 'W'; sscanf(line, "o W %d %255s", &o.a, a); o.g = rat(a); }
+            else if (line[2] == 'P') { o.kind = 'P'; sscanf(line, "o P %d", &o.a); }
+            else if (line[2] == 'R') {
+                o.kind = 'R';
+                std::istringstream is(line + 3);
+                int cnt = 0; is >> cnt;
+                for (int q = 0; q < cnt; ++q) { int j = -1; is >> j; o.ids.push_back(j); }
+            }
             ops.push_back(o);
         }
         printf("I %d\n", id);
